@@ -291,7 +291,7 @@ func runCase(c *core.Ctx, slot int, stream string, idx int, p *prog, cfg dcfg, s
 
 // Run is the check.
 func Run(c *core.Ctx) {
-	c.Note("rule", "cases: (a) stream 'prog': seeded single-threaded ECAL programs (assignments, arithmetic, if/elif/else, range / guard / list / map loops with break/continue, functions with defaults, nested and recursive calls, try/except/otherwise/finally with raise and runtime errors, log, lists, maps; one statement per line), each under 4 debugger configurations drawn from: breakpoints {none, every line, random subsets incl. disabled ones, set/disable/remove/remove-all while running} x breakonstart x break-on-error {default, off} x command script over {resume, stepin, stepover, stepout} per suspended thread x command route {Continue(), HandleInput} x driver timing {immediate, settled, seeded delay}, with seeded noise at the dbg.* hook points; (b) stream 'sink': programs with 2-3 sinks on 2-4 workers (addEvent / addEventAndWait, optional cascade; per-event output order independent, compared as sorted log) under the same configurations; (c) stream 'gate': a fixed matrix of directed gates dbg.beforewait -> dbg.broadcast over wait site {breakpoint (incl. breakonstart), step, error} x position {first line, in call, nested call, after call, loop, sink worker} x releasing command {resume, stepin, stepover, stepout, StopThreads}, plus StopThreads with 3-4 threads (one held in the window / all really parked). stepout for a thread outside any call is only issued if a start-up probe shows that it no longer panics (that panic is owned by C16). The race build runs a subset and decides only on race reports whose innermost frame is Set/Disable/RemoveBreakPoint. A case is non-trivial if the debugged run suspended at least once (a, b) or the gate held the thread and was opened by the partner's broadcast (c); distinct = distinct (program, configuration) pairs / scenarios")
+	c.Note("rule", "cases: (a) stream 'prog': seeded single-threaded ECAL programs (assignments, arithmetic, if/elif/else, range / guard / list / map loops with break/continue, functions with defaults, nested and recursive calls, try/except/otherwise/finally with raise and runtime errors, log, lists, maps; one statement per line), each under 4 debugger configurations drawn from: breakpoints {none, every line, random subsets incl. disabled ones, set/disable/remove/remove-all while running} x breakonstart x break-on-error {default, off} x command script over {resume, stepin, stepover, stepout} per suspended thread x command route {Continue(), HandleInput} x driver timing {immediate, settled, seeded delay}, with seeded noise at the dbg.* hook points; (b) stream 'sink': programs with 2-3 sinks on 2-4 workers (addEvent / addEventAndWait, optional cascade; per-event output order independent, compared as sorted log) under the same configurations; (c) stream 'gate': a fixed matrix of directed gates dbg.beforewait -> dbg.broadcast over wait site {breakpoint (incl. breakonstart), step, error} x position {first line, in call, nested call, after call, loop, sink worker} x releasing command {resume, stepin, stepover, stepout, StopThreads}, plus StopThreads with 3-4 threads (one held in the window / all really parked). (d) stream 'xsource': a call on line lc of the main source into a function whose body starts on line lf of an imported source, active breakpoints on both lines (and optionally on the line after the call), the first stop left with {resume, stepover, stepin}: complete grid lc, lf in 3..7 (incl. equal line numbers in the two sources), the sequence of suspensions read through Status/Describe must contain every breakpoint line in order. stepout for a thread outside any call is only issued if a start-up probe shows that it no longer panics (that panic is owned by C16). The race build runs a subset and decides only on race reports whose innermost frame is Set/Disable/RemoveBreakPoint. A case is non-trivial if the debugged run suspended at least once (a, b) or the gate held the thread and was opened by the partner's broadcast (c); distinct = distinct (program, configuration) pairs / scenarios")
 	if n := os.Getenv("VH_C15_DUMP"); n != "" {
 		dump(c, n)
 		return
@@ -312,6 +312,11 @@ func Run(c *core.Ctx) {
 			return // quick race build: every other scenario
 		}
 		runGate(c, slot, "gate", idx, scns[idx%len(scns)])
+	})
+
+	// ---- (d) breakpoints in an imported source (complete grid, no noise)
+	c.Parallel(1, "xsource", 5*5*2*3, func(slot, idx int) {
+		runXSource(c, idx)
 	})
 
 	// ---- (a), (b): seeded noise at the hook points from here on
